@@ -43,6 +43,16 @@ v('C17', 'fire', K, 'norm4 / 120', 'norm4 / 100', 'Taylor coefficient')
 v('C17 C01', 'fire', K, 'mat[0, 1] = k2 * rv[0] * rv[1] - k1 * rv[2]', 'mat[0, 1] = k2 * rv[0] * rv[1] + k1 * rv[2]', 'skew sign')
 v('C17', 'fire', K, 'k2 = (1 - np.cos(norm)) / norm2', 'k2 = (1 - np.cos(norm)) / norm', 'closed-form coefficient')
 v('C17', 'silent', K, 'cos = 1 - norm2 / 2 + norm4 / 24', 'cos = 1 - norm2 * (0.5 - norm2 / 24)', 'Horner form')
+_FAST = ('    if norm2 %s:\n        mat[:, :] = 0.0\n        mat[0, 0] = 1.0\n        mat[1, 1] = 1.0\n'
+         '        mat[2, 2] = 1.0\n        return\n    if norm2 > 1e-6:')
+v('C17 C01', 'fire', K, '    if norm2 > 1e-6:', _FAST % '< 1e-14',
+  'round-4 seed: identity fast path drops rotations below 1e-7 rad')
+v('C17 C01', 'silent', K, '    if norm2 > 1e-6:', _FAST % '== 0', 'exact fast path for the zero rotation')
+v('C17', 'fire', K, 'norm2 = np.sum(rv ** 2)', 'norm2 = np.sum(rv ** 3)', 'survey: tested local is not the squared norm')
+v('C17', 'fire', K, 'if norm2 > 1e-6:', 'if norm2 < 1e-6:', 'arms exchanged: closed form at rv = 0')
+v('C17', 'silent', K, 'if norm2 > 1e-6:', 'if not norm2 <= 1e-6:')
+v('C17', 'silent', K, 'norm = norm2 ** 0.5', 'norm = np.sqrt(norm2)')
+v('C17', 'fire', K, '    mat[2, 1] = k2 * rv[2] * rv[1] + k1 * rv[0]\n', '', 'one entry never written')
 v('C17', 'fire', 'filters.py', "rot_1 = Rotation.from_euler('xyz', first[RPH_COLS], True)",
   "rot_1 = Rotation.from_euler('XYZ', first[RPH_COLS], True)", 'intrinsic sequence at one site')
 v('C17', 'fire', 'transform.py', "return Rotation.from_matrix(mat).as_euler('xyz', degrees=True)",
